@@ -308,7 +308,7 @@ pub open spec fn free_list_popped<T>(s: Seq<Node<T>>, first: Option<usize>, last
 
 impl<T> Arena<T> {
     pub open spec fn fl_ok(&self) -> bool {
-        exists|fl: Seq<int>| free_list(self.nodes@, self.first_free_slot, self.last_free_slot, fl)
+        fl_ok_state(self.nodes@, self.first_free_slot, self.last_free_slot)
     }
 
     pub open spec fn acyclic(&self) -> bool {
@@ -3641,6 +3641,203 @@ pub proof fn lemma_free_links_all<T>(o: Seq<Node<T>>, x: int)
     assert forall|a: Arena<T>| free_frame(o, a.nodes@, x) implies #[trigger] a.acyclic() by {
         lemma_free_links(o, a.nodes@, w0, x);
         assert(ranked(a.nodes@, w0));
+    }
+}
+
+/// the free list `free_node(x)` leaves behind, given the one it found
+pub open spec fn freed_fl<T>(n: Seq<Node<T>>, x: int, fl: Seq<int>) -> Seq<int> {
+    if n[x].stamp.can_reuse() {
+        fl.push(x)
+    } else {
+        fl
+    }
+}
+
+pub open spec fn fl_ok_state<T>(n: Seq<Node<T>>, first: Option<usize>, last: Option<usize>) -> bool {
+    exists|fl: Seq<int>| free_list(n, first, last, fl)
+}
+
+/// every state `free_node(x)` may end in, described slot by slot against the state it started from:
+/// the freed slot either joins the tail of the free list or (generation counter exhausted) is retired
+pub open spec fn freed_state<T>(
+    o: Seq<Node<T>>,
+    of: Option<usize>,
+    ol: Option<usize>,
+    n: Seq<Node<T>>,
+    nf: Option<usize>,
+    nl: Option<usize>,
+    x: int,
+) -> bool {
+    &&& n.len() == o.len()
+    &&& n[x].stamp.removed()
+    &&& forall|i: int| 0 <= i < o.len() && i != x ==> (#[trigger] n[i]).stamp == o[i].stamp
+    &&& if n[x].stamp.can_reuse() {
+        &&& n[x].data == NodeData::<T>::NextFree(None)
+        &&& nl == Some(x as usize)
+        &&& ol is Some ==> nf == of && 0 <= ol->0 < n.len() && n[ol->0 as int].data == NodeData::<T>::NextFree(Some(x as usize))
+        &&& ol is None ==> nf == Some(x as usize)
+        &&& forall|i: int| 0 <= i < o.len() && i != x && ol != Some(i as usize) ==> (#[trigger] n[i]).data == o[i].data
+    } else {
+        &&& nf == of && nl == ol
+        &&& forall|i: int| 0 <= i < o.len() && i != x ==> (#[trigger] n[i]).data == o[i].data
+    }
+}
+
+/// established once at the start of `free_node`: whatever path the function takes, if it ends in a
+/// `freed_state` then the free list is the old one with x appended (or unchanged when x is retired).
+/// The triggers are the goals themselves, so no proof hint is tied to a program point.
+pub proof fn lemma_freed_all<T>(o: Seq<Node<T>>, of: Option<usize>, ol: Option<usize>, x: int)
+    // @props C07
+    requires
+        fl_ok_state(o, of, ol),
+        0 <= x < o.len(),
+        o.len() <= usize::MAX,
+        !o[x].stamp.removed(),
+    ensures
+        forall|n: Seq<Node<T>>, nf: Option<usize>, nl: Option<usize>| freed_state(o, of, ol, n, nf, nl, x) ==> #[trigger] fl_ok_state(n, nf, nl),
+        forall|n: Seq<Node<T>>, nf: Option<usize>, nl: Option<usize>, fl: Seq<int>|
+            freed_state(o, of, ol, n, nf, nl, x) && free_list(o, of, ol, fl) ==> #[trigger] free_list(n, nf, nl, freed_fl(n, x, fl)),
+{
+    assert forall|n: Seq<Node<T>>, nf: Option<usize>, nl: Option<usize>, fl: Seq<int>|
+        freed_state(o, of, ol, n, nf, nl, x) && free_list(o, of, ol, fl) implies #[trigger] free_list(n, nf, nl, freed_fl(n, x, fl)) by {
+        lemma_fl_ends(o, of, ol, fl);
+        if n[x].stamp.can_reuse() {
+            lemma_fl_push(o, n, of, ol, fl, x, nf, nl);
+        } else {
+            lemma_fl_retire(o, n, of, ol, fl, x);
+        }
+    }
+    let fl0 = choose|fl: Seq<int>| free_list(o, of, ol, fl);
+    assert forall|n: Seq<Node<T>>, nf: Option<usize>, nl: Option<usize>| freed_state(o, of, ol, n, nf, nl, x) implies #[trigger] fl_ok_state(n, nf, nl) by {
+        assert(free_list(n, nf, nl, freed_fl(n, x, fl0)));
+    }
+}
+
+/// established once at the start of `pop_front_free_node`: whatever path the function takes, if it leaves
+/// the list ends as `(next of the old head, None if that was the only slot)` the head slot is popped
+pub proof fn lemma_popped_all<T>(s: Seq<Node<T>>, of: Option<usize>, ol: Option<usize>)
+    // @props C07
+    requires
+        s.len() <= usize::MAX,
+    ensures
+        forall|nf: Option<usize>, nl: Option<usize>, fl: Seq<int>|
+            free_list(s, of, ol, fl) && fl.len() > 0 && s[fl[0]].data == NodeData::<T>::NextFree(nf) && nl == (if nf is None {
+                None
+            } else {
+                ol
+            }) ==> #[trigger] free_list_popped(s, nf, nl, fl.drop_first(), fl[0]),
+{
+    assert forall|nf: Option<usize>, nl: Option<usize>, fl: Seq<int>|
+        free_list(s, of, ol, fl) && fl.len() > 0 && s[fl[0]].data == NodeData::<T>::NextFree(nf) && nl == (if nf is None {
+            None
+        } else {
+            ol
+        }) implies #[trigger] free_list_popped(s, nf, nl, fl.drop_first(), fl[0]) by {
+        lemma_fl_pop(s, of, ol, fl, nf, nl);
+    }
+}
+
+/// the ends of every free list of the state (for the skolem of a quantified postcondition)
+pub proof fn lemma_fl_ends_all<T>(s: Seq<Node<T>>, first: Option<usize>, last: Option<usize>)
+    // @props C07
+    ensures
+        forall|fl: Seq<int>| #[trigger]
+            free_list(s, first, last, fl) ==> {
+                &&& first is None <==> fl.len() == 0
+                &&& last is None <==> fl.len() == 0
+                &&& fl.len() > 0 ==> first == Some(fl[0] as usize) && last == Some(fl[fl.len() - 1] as usize) && 0 <= fl[0] < s.len() && s[fl[0]].data is NextFree
+                    && s[fl[0]].stamp.can_reuse()
+            },
+{
+    assert forall|fl: Seq<int>| #[trigger] free_list(s, first, last, fl) implies {
+        &&& first is None <==> fl.len() == 0
+        &&& last is None <==> fl.len() == 0
+        &&& fl.len() > 0 ==> first == Some(fl[0] as usize) && last == Some(fl[fl.len() - 1] as usize) && 0 <= fl[0] < s.len() && s[fl[0]].data is NextFree
+            && s[fl[0]].stamp.can_reuse()
+    } by {
+        lemma_fl_ends(s, first, last, fl);
+    }
+}
+
+/// the slot `new_node` hands out: the head of the free list, else a new slot at the end
+pub open spec fn alloc_slot<T>(o: Seq<Node<T>>, of: Option<usize>) -> int {
+    if of is Some {
+        of->0 as int
+    } else {
+        o.len() as int
+    }
+}
+
+/// the slots of every state `new_node` may end in, against the state it started from
+pub open spec fn alloc_nodes<T>(o: Seq<Node<T>>, of: Option<usize>, n: Seq<Node<T>>) -> bool {
+    let x = alloc_slot(o, of);
+    &&& 0 <= x <= o.len()
+    &&& of is Some ==> n.len() == o.len()
+    &&& of is None ==> n.len() == o.len() + 1
+    &&& forall|i: int| 0 <= i < o.len() && i != x ==> (#[trigger] n[i]) == o[i]
+    &&& no_links(n[x]) && !n[x].stamp.removed() && n[x].data is Data
+}
+
+/// ... and the ends of its free list: the head slot is unlinked, or nothing changes when the arena grows
+pub open spec fn alloc_state<T>(o: Seq<Node<T>>, of: Option<usize>, ol: Option<usize>, n: Seq<Node<T>>, nf: Option<usize>, nl: Option<usize>) -> bool {
+    let x = alloc_slot(o, of);
+    &&& alloc_nodes(o, of, n)
+    &&& of is Some ==> o[x].data == NodeData::<T>::NextFree(nf) && nl == (if nf is None {
+        None
+    } else {
+        ol
+    })
+    &&& of is None ==> nf == of && nl == ol
+}
+
+/// established once at the start of `new_node`, triggered by the postconditions themselves
+pub proof fn lemma_alloc_all<T>(o: Seq<Node<T>>, of: Option<usize>, ol: Option<usize>)
+    // @props C07 C01 C12
+    requires
+        links_ok(o),
+        exists|w: Ranks| ranked(o, w),
+        data_ok(o),
+        fl_ok_state(o, of, ol),
+        o.len() <= usize::MAX,
+    ensures
+        forall|n: Seq<Node<T>>| alloc_nodes(o, of, n) ==> #[trigger] links_ok(n),
+        forall|n: Seq<Node<T>>| alloc_nodes(o, of, n) ==> #[trigger] data_ok(n),
+        forall|a: Arena<T>| alloc_nodes(o, of, a.nodes@) ==> #[trigger] a.acyclic(),
+        forall|n: Seq<Node<T>>, nf: Option<usize>, nl: Option<usize>| alloc_state(o, of, ol, n, nf, nl) ==> #[trigger] fl_ok_state(n, nf, nl),
+        forall|n: Seq<Node<T>>, nf: Option<usize>, nl: Option<usize>, fl: Seq<int>|
+            alloc_state(o, of, ol, n, nf, nl) && free_list(o, of, ol, fl) && fl.len() > 0 ==> #[trigger] free_list(n, nf, nl, fl.drop_first()),
+        forall|n: Seq<Node<T>>, nf: Option<usize>, nl: Option<usize>, fl: Seq<int>|
+            alloc_state(o, of, ol, n, nf, nl) && free_list(o, of, ol, fl) && fl.len() == 0 ==> #[trigger] free_list(n, nf, nl, fl),
+{
+    let x = alloc_slot(o, of);
+    assert forall|n: Seq<Node<T>>, nf: Option<usize>, nl: Option<usize>, fl: Seq<int>|
+        alloc_state(o, of, ol, n, nf, nl) && free_list(o, of, ol, fl) && fl.len() > 0 implies #[trigger] free_list(n, nf, nl, fl.drop_first()) by {
+        lemma_fl_ends(o, of, ol, fl);
+        lemma_fl_pop(o, of, ol, fl, nf, nl);
+        lemma_fl_reuse(o, n, nf, nl, fl.drop_first(), x);
+    }
+    assert forall|n: Seq<Node<T>>, nf: Option<usize>, nl: Option<usize>, fl: Seq<int>|
+        alloc_state(o, of, ol, n, nf, nl) && free_list(o, of, ol, fl) && fl.len() == 0 implies #[trigger] free_list(n, nf, nl, fl) by {
+        lemma_fl_ends(o, of, ol, fl);
+        lemma_fl_grow(o, n, of, ol, fl);
+    }
+    let fl0 = choose|fl: Seq<int>| free_list(o, of, ol, fl);
+    lemma_fl_ends(o, of, ol, fl0);
+    assert forall|n: Seq<Node<T>>, nf: Option<usize>, nl: Option<usize>| alloc_state(o, of, ol, n, nf, nl) implies #[trigger] fl_ok_state(n, nf, nl) by {
+        if fl0.len() > 0 {
+            assert(free_list(n, nf, nl, fl0.drop_first()));
+        } else {
+            assert(free_list(n, nf, nl, fl0));
+        }
+    }
+    assert forall|n: Seq<Node<T>>| alloc_nodes(o, of, n) implies #[trigger] links_ok(n) by {
+        lemma_alloc_links(o, n, x);
+    }
+    assert forall|n: Seq<Node<T>>| alloc_nodes(o, of, n) implies #[trigger] data_ok(n) by {
+        lemma_alloc_links(o, n, x);
+    }
+    assert forall|a: Arena<T>| alloc_nodes(o, of, a.nodes@) implies #[trigger] a.acyclic() by {
+        lemma_alloc_links(o, a.nodes@, x);
     }
 }
 
